@@ -29,6 +29,9 @@ Data == [ anycap |-> VLg(I3, "anycap"),               \* []interface{} with spar
           strs   |-> VLg(S3, "strs"),
           arr3   |-> VLg(I3, "arr3"),                 \* [3]int
           any    |-> VL(I3),
+          tags   |-> VLg(S3, "tags"),                 \* type Tags []string
+          i64s   |-> VLg(I3, "i64s"),                 \* []int64
+          f32s   |-> VLg(I3, "f32s"),                 \* []float32
           \* (keys in sorted order: which order a map is walked in is C03's business, not this property's)
           map    |-> VM(<<VS(<<97>>), VS(<<98>>)>>, <<VI(1), VI(2)>>),
           msi    |-> VMg(<<VS(<<97>>), VS(<<98>>)>>, <<VI(1), VI(2)>>, "msi") ]
@@ -79,11 +82,19 @@ NestCtx == ("o" :> VMg(<<VS(<<73, 116, 101, 109, 115>>)>>, <<VL(I3)>>, "holder")
            @@ ("x" :> VL(<<>>))
 NT2 == [Items |-> <<73, 116, 101, 109, 115>>]
 NestProg(c) == <<D(Step(c.g, Step(c.f, Attr(Var("q"), "k")))), T(<<124>>), D(Attr(Var("q"), "k")), T(<<124>>),
-                 D(Step(c.f, Item(Var("q"), LS(<<107>>)))), T(<<124>>), D(Var("q"))>>
+                 D(Step(c.f, Item(Var("q"), LS(<<107>>)))), T(<<124>>), D(Var("q")), T(<<124>>),
+                 \* slices that are fields of a struct / of a struct behind a pointer
+                 D(Step(c.g, Step(c.f, Attr(Var("o"), "Items")))), T(<<124>>), D(Attr(Var("o"), "Items")), T(<<124>>),
+                 D(Step(c.f, Attr(Var("p"), "Items"))), T(<<124>>), D(Attr(Var("p"), "Items"))>>
 
-Prog(c) == CASE c.fam = "chain" -> ChainProg(c) [] c.fam = "reobs" -> ReobsProg(c)
+\* a context with many keys (size classes of the engine's pooled maps) and top-level writes
+BigKeys == {"k01", "k02", "k03", "k04", "k05", "k06", "k07", "k08", "k09", "k10", "k11", "k12", "k13", "k14", "k15", "k16", "k17", "k18", "k19", "k20"}
+BigCtx(n) == [k \in {kk \in BigKeys : \E i \in 1..n : kk = (IF i < 10 THEN "k0" \o ToString(i) ELSE "k" \o ToString(i))} |-> VI(1)] @@ ("x" :> VL(I3))
+BigCases == {[fam |-> "bigctx", n |-> n, w |-> w] : n \in {3, 15, 16, 17, 20}, w \in {"set", "loopvar", "setinloop", "macroparam"}}
+BigProg(c) == <<Set("k01", LI(5)), Set("fresh", LI(6))>> \o WriteProg([w |-> c.w]) \o <<PrintS(Var("k01")), PrintS(Var("k02"))>>
+Prog(c) == CASE c.fam = "bigctx" -> BigProg(c) [] c.fam = "chain" -> ChainProg(c) [] c.fam = "reobs" -> ReobsProg(c)
              [] c.fam = "write" -> WriteProg(c) [] c.fam = "nested" -> NestProg(c)
-CtxOf(c) == IF c.fam = "nested" THEN NestCtx ELSE ("x" :> Data[c.d])
+CtxOf(c) == IF c.fam = "nested" THEN NestCtx ELSE IF c.fam = "bigctx" THEN BigCtx(c.n) ELSE ("x" :> Data[c.d])
 Tp(c) == ("main" :> Prog(c)) @@ ("t1" :> <<D(X), Set("x", LI(0))>>) @@ ("t2" :> <<Set("x", LI(9)), D(X)>>)
 Ref(c) == Render(MkW(Tp(c), {}, {}, NoFault), "main", CtxOf(c))
 
@@ -93,13 +104,13 @@ CaseOf(c) ==
      tags |-> {"fam:" \o c.fam} \cup (IF "d" \in DOMAIN c THEN {"d:" \o c.d} ELSE {})
               \cup (IF c.fam = "chain" THEN {"f:" \o c.fs[i] : i \in 1..Len(c.fs)} ELSE {})
               \cup (IF c.fam \in {"reobs", "nested"} THEN {"f:" \o c.f, "f:" \o c.g} ELSE {})
-              \cup (IF c.fam = "write" THEN {"w:" \o c.w} ELSE {}),
+              \cup (IF c.fam \in {"write", "bigctx"} THEN {"w:" \o c.w} ELSE {}),
      entry |-> "main", ctx |-> CtxOf(c),
      runs |-> {[label |-> c.fam, tp |-> Sources(Tp(c), LMin), xcalls |-> [id \in {} |-> 0], shared |-> 2]},
      expect |-> [ok |-> ref.ok, out |-> ref.out, err |-> ref.err, calls |-> [id \in {} |-> 0]]]
 
-Fams == {"chain", "reobs", "write", "nested"}
-All == ChainCases \cup ReobsCases \cup WriteCases \cup NestCases
+Fams == {"chain", "reobs", "write", "nested", "bigctx"}
+All == ChainCases \cup ReobsCases \cup WriteCases \cup NestCases \cup BigCases
 Init == cs \in {[part |-> f] : f \in Fams}
 Valid(c) == CASE c.fam = "chain" -> ChainOK(c.d, c.fs)
              [] c.fam = "reobs" -> (IsMapData(c.d) => c.f \in MapFirstSteps /\ (c.f \in {"default", "mergeself"} => c.g \in MapFirstSteps))
